@@ -33,6 +33,10 @@ TRUSTED = [
     "GoodStencil (closed under negation with equal weights; completeness relation B1) are checked numerically on the "
     "real find_shells for every lattice used",
     "not modelled (oracle only): Data_K_k.Xbar, the calculators; eigh / formula evaluation by contract",
+    "calculators / tabulators: the allowed |numeric - analytic| is derived from the proved derivative bound: 10 x the "
+    "measured response of the same quantity to analytic derivatives perturbed by that bound (4 random Hermitian "
+    "directions; accumulated per k-point in absolute value for grid integrals; worst observed ratio 0.47); grids and "
+    "k-points with a band gap < 0.3 are left out",
     "rounding: the numerical derivative of level j is compared within  (j/6)*|D^(n+2)F|*sum_b|w_b||b|^4  (proved "
     "truncation term, exact for polynomials of degree <= 4) + 16*eps*(sum_b |w_b||b|)^j*max|F|  (rounding of the "
     "cancelling sum; the constant 16 is ~80x the largest ratio observed on the unchanged code)",
@@ -228,6 +232,66 @@ def build_kp(ham, latt, cart, dk=None, levels=0):
     return s
 
 
+class DerivBound:
+    """entrywise bound on |numerical - analytic| derivative of order n for a SystemKP whose analytic derivatives are
+    supplied up to `levels`:  proved truncation term (j/6)|D^(n+2)F| sum_b|w_b||b|^4  (exact for polynomials of degree
+    <= 4; plus the next order for smooth Hamiltonians) + rounding 16 eps (sum_b|w_b||b|)^j max|base function|,
+    j = n - levels stencil applications"""
+
+    def __init__(self, ham, system, cart, levels, smooth=False):
+        self.ham, self.levels, self.smooth = ham, levels, smooth
+        bn = np.linalg.norm(system.bk_cart, axis=1)
+        w = np.abs(system.wk)
+        self.M4s, self.M6s, self.S1 = float((w * bn ** 4).sum()), float((w * bn ** 6).sum()), float((w * bn).sum())
+        self.cn = 1.0 if cart else float(np.linalg.norm(system.recip_lattice_inv, 2))   # |dq| <= cn |dk_cart|
+
+    def __call__(self, q, n):
+        ham, levels, cn = self.ham, self.levels, self.cn
+        j = n - levels
+        if j <= 0:
+            return 0.0
+        Fmax = max(ham.absmax(q), 1e-3)
+        base = max(ham.supnorm(q, levels) * cn ** levels, Fmax if levels == 0 else 0.0)
+        trunc = (j / 6.0) * ham.supnorm(q, n + 2) * cn ** (n + 2) * self.M4s
+        if self.smooth:
+            trunc = 1.1 * trunc + j * ham.supnorm(q, n + 4) * cn ** (n + 4) * self.M6s / 60.0
+        return trunc + 16 * EPS * self.S1 ** j * (base + 1e-3)
+
+
+def build_kp_perturbed(ham, latt, cart, dk, bound, Z):
+    """fully analytic SystemKP whose n-th derivative is  analytic + bound(q, n) * Z[n-1]  (Z: fixed tensors with
+    entries of modulus <= sqrt 2, Hermitian in the band indices): a system whose derivatives deviate from the
+    analytic ones by (up to) the proved finite-difference error, in a random direction"""
+    from wannierberri.system.system_kp import SystemKP
+    kw = dict(latt)
+    if dk is not None:
+        kw["finite_diff_dk"] = dk
+    with quiet():
+        s = SystemKP(Ham=lambda q: ham(q), k_vector_cartesian=cart, **kw)
+    Cm = None if cart else s.recip_lattice_inv
+    names = ["derHam", "der2Ham", "der3Ham"]
+    an = {names[n - 1]: (lambda q, n=n: cart_tensor(ham, q, n, Cm) + bound(q, n) * Z[n - 1]) for n in (1, 2, 3)}
+    with quiet():
+        return SystemKP(Ham=lambda q: ham(q), k_vector_cartesian=cart, **kw, **an)
+
+
+def rand_Z(rs, nw):
+    Z = []
+    for n in (1, 2, 3):
+        A = rs.uniform(-1, 1, (nw, nw) + (3,) * n) + 1j * rs.uniform(-1, 1, (nw, nw) + (3,) * n)
+        Z.append((A + np.conj(np.swapaxes(A, 0, 1))) / 2)
+    return Z
+
+
+# tolerance of a derived quantity = SENS_SAFETY x (largest response to NSAMP random perturbations of the derivatives of
+# the size of the proved bound; for grid-integrated calculators the responses are accumulated k-point by k-point in
+# absolute value).  Calibration on the unchanged code (thorough seeds 0-9 and quick seeds 0-25 of this oracle, about
+# 2500 comparisons): largest observed |numeric - analytic| / response = 0.47, so the factor 10 leaves a margin > 20x;
+# the ratio observed in a run is recorded in the evidence notes.
+NSAMP = 4
+SENS_SAFETY = 10.0
+
+
 def stencil_rows(wk, bk_red, bk_cart):
     return ratss([[w] + list(br) + list(bc) for w, br, bc in zip(wk, bk_red, bk_cart)])
 
@@ -413,10 +477,8 @@ def oracle_derivs(ctx, scale, rs):
             if np.abs(s.bk_cart - s.bk_red.dot(s.recip_lattice)).max() > 1e-12 * np.abs(s.bk_cart).max():
                 ctx.fail("SystemKP: bk_cart != bk_red . recip_lattice", case)
             Cm = None if cart else s.recip_lattice_inv
-            bn = np.linalg.norm(s.bk_cart, axis=1)
-            w = np.abs(s.wk)
-            M4s, M6s, S1 = float((w * bn ** 4).sum()), float((w * bn ** 6).sum()), float((w * bn).sum())
-            cn = 1.0 if cart else float(np.linalg.norm(s.recip_lattice_inv, 2))   # |dq| <= cn |dk_cart|
+            bound = DerivBound(ham, s, cart, levels, smooth)
+            S1 = bound.S1
             reach = 3 * np.abs(s.bk_red).max(axis=0) + 1e-9
             for ik in range(3):
                 if np.any(reach > 0.45):
@@ -433,12 +495,7 @@ def oracle_derivs(ctx, scale, rs):
                     if j <= 0:
                         tol = 1e-12 * (1 + np.abs(ana).max())
                     else:
-                        base = max(ham.supnorm(q, levels) * cn ** levels, Fmax if levels == 0 else 0.0)
-                        trunc = (j / 6.0) * ham.supnorm(q, n + 2) * cn ** (n + 2) * M4s
-                        if smooth:
-                            trunc = 1.1 * trunc + j * ham.supnorm(q, n + 4) * cn ** (n + 4) * M6s / 60.0
-                        rnd = 16 * EPS * S1 ** j * (base + 1e-3)
-                        tol = trunc + rnd
+                        tol = bound(q, n)
                         err = float(np.abs(num[n] - ana).max())
                         worst[n - 1] = max(worst[n - 1], err / tol)
                     ctx.case(signature=("der", it, ik, n), nontrivial=(smooth or deg >= 2) and (len(s.wk) > 6 or not cart or nw >= 2))
@@ -463,12 +520,19 @@ def oracle_derivs(ctx, scale, rs):
 
 
 def oracle_calculators(ctx, scale, rs):
+    """every calculator: numeric-derivative system vs analytic-derivative system.  The allowed difference is DERIVED:
+    the numeric derivatives deviate from the analytic ones by at most DerivBound (proved truncation term + rounding),
+    so the result may deviate by (sensitivity of the result to such a deviation) - measured by evaluating the same
+    quantity on analytic systems whose derivatives are perturbed by the bound in NSAMP random directions - times the
+    safety factor SENS_SAFETY.  Energy denominators are part of the measured sensitivity; k-points / grids with a
+    gap below 0.3 are left out."""
     from ..wbsys import wb
     calc = wb.calculators
     static = ["DOS", "CumDOS", "AHC", "Ohmic_FermiSea", "Ohmic_FermiSurf", "Hall_classic_FermiSea",
               "Hall_classic_FermiSurf", "BerryDipole_FermiSea", "BerryDipole_FermiSurf", "NLDrude_FermiSea",
               "QuantumMetric_FermiSea", "Morb"]
     tabs = ["Velocity", "InvMass", "Der3E", "BerryCurvature", "DerBerryCurvature", "OrbitalMoment"]
+    worst = 0.0
     for it in range(ctx.n(2, 8) * scale):
         nw = 2
         deg = int(rs.randint(2, 5))
@@ -477,66 +541,92 @@ def oracle_calculators(ctx, scale, rs):
         ham.C[(0, 0, 0)] = ham.C.get((0, 0, 0), 0) + np.diag([2.5, -2.5])
         latt, ldesc = lattice_spec(rs)
         cart = bool(rs.rand() < 0.5)
-        case = dict(what="calculators numeric vs analytic derivatives", lattice=ldesc, finite_diff_dk=safe_dk(latt), k_vector_cartesian=cart, deg=deg,
-                    lattice_kwargs={k: v for k, v in latt.items()}, coef={str(e): A for e, A in ham.C.items()})
+        dk = safe_dk(latt)     # default finite_diff_dk unless that falls into the known-finding class
+        case = dict(what="calculators numeric vs analytic derivatives", lattice=ldesc, finite_diff_dk=dk, k_vector_cartesian=cart,
+                    deg=deg, lattice_kwargs={k: v for k, v in latt.items()}, coef={str(e): A for e, A in ham.C.items()})
         with ctx.attempt("calculators on SystemKP", case):
-            dk = safe_dk(latt)     # default finite_diff_dk unless that falls into the known-finding class
-            s0 = build_kp(ham, latt, cart, dk=dk, levels=0)
-            s3 = build_kp(ham, latt, cart, dk=dk, levels=3)
             lv = int(rs.randint(1, 3))
-            s1 = build_kp(ham, latt, cart, dk=dk, levels=lv)
+            systems = {"numeric": build_kp(ham, latt, cart, dk=dk, levels=0),
+                       f"analytic-to-level-{lv}": build_kp(ham, latt, cart, dk=dk, levels=lv)}
+            s0 = systems["numeric"]
+            s3 = build_kp(ham, latt, cart, dk=dk, levels=3)
+            # the bound for the fully numerical system also bounds the partially analytic ones (fewer stencil levels)
+            bound = DerivBound(ham, s0, cart, 0)
+            perturbed = [build_kp_perturbed(ham, latt, cart, dk, bound, rand_Z(rs, nw)) for _ in range(NSAMP)]
             NK = 3
             kpts = np.array(list(itertools.product(range(NK), repeat=3))) / NK
             E = np.array([np.linalg.eigvalsh(ham(s0.k_ham_from_red(k))) for k in kpts])
             gap = float(np.min(np.diff(E, axis=1)))
             ctx.count("oracle.calc.gapped" if gap > 0.3 else "oracle.calc.small-gap")
-            if gap < 0.3:
-                continue
-            Ef = np.linspace(E.min() - 0.1, E.max() + 0.1, 7)
-            names = list(rs.choice(static, 4, replace=False))
-            res = {}
-            for tag, s in (("numeric", s0), ("analytic", s3), (f"analytic-to-level-{lv}", s1)):
-                with quiet():
-                    grid = wb.Grid(s, NK=NK, NKFFT=1)
-                    r = wb.run(s, grid=grid, calculators={nm: getattr(calc.static, nm)(Efermi=Ef) for nm in names},
-                               parallel=False, adpt_num_iter=0, use_irred_kpt=False, symmetrize=False,
-                               print_progress_step_time=1e9)
-                res[tag] = {nm: r.results[nm].data for nm in names}
-            # natural scale of each result: the k-point average of the ABSOLUTE single-k contributions (a result may
-            # vanish by cancellation between k-points, its rounding noise does not)
-            absscale = {nm: 0.0 for nm in names}
-            for kp in kpts:
-                with quiet():
-                    rk = wb.evaluate_k(s3, k=kp, calculators={nm: getattr(calc.static, nm)(Efermi=Ef) for nm in names})
-                for nm in names:
-                    absscale[nm] += float(np.abs(rk[nm].data).max()) / len(kpts)
-            for nm in names:
-                ref = res["analytic"][nm]
-                for tag in res:
-                    if tag == "analytic":
-                        continue
-                    d = float(np.abs(res[tag][nm] - ref).max())
-                    tol = 1e-4 * max(float(np.abs(ref).max()), absscale[nm]) / min(1.0, gap) ** 2 + 1e-300
-                    ctx.case(signature=("calc", it, nm, tag), nontrivial=True)
-                    ctx.count(f"oracle.calc.{nm}")
-                    if res[tag][nm].shape != ref.shape or d > tol:
-                        ctx.fail(f"calculator {nm}: {tag} derivatives give a result differing by {d:.3e} "
-                                 f"(> {tol:.1e}; max |result| {np.abs(ref).max():.3e}) from the analytic-derivative run",
-                                 dict(case, Efermi=Ef, NK=NK))
+            if gap >= 0.3:
+                Ef = np.linspace(E.min() - 0.1, E.max() + 0.1, 7)
+                names = list(rs.choice(static, 4, replace=False))
+
+                def run(s):
+                    with quiet():
+                        grid = wb.Grid(s, NK=NK, NKFFT=1)
+                        r = wb.run(s, grid=grid, calculators={nm: getattr(calc.static, nm)(Efermi=Ef) for nm in names},
+                                   parallel=False, adpt_num_iter=0, use_irred_kpt=False, symmetrize=False,
+                                   print_progress_step_time=1e9)
+                    return {nm: r.results[nm].data for nm in names}
+
+                def at_k(s, kp):
+                    with quiet():
+                        r = wb.evaluate_k(s, k=kp, calculators={nm: getattr(calc.static, nm)(Efermi=Ef) for nm in names},
+                                          return_single_as_dict=True)
+                    return {nm: r[nm].data for nm in names}
+                # the result is the k-average of single-k contributions.  The finite-difference error is systematic
+                # (same sign at neighbouring k), a random perturbation is not: responses are therefore accumulated
+                # k-point by k-point in ABSOLUTE value (no cancellation between k-points), and so is the natural scale
+                sens = {nm: 0.0 for nm in names}
+                absscale = {nm: 0.0 for nm in names}
+                for kp in kpts:
+                    rk = at_k(s3, kp)
+                    pk = [at_k(sp, kp) for sp in perturbed]
+                    for nm in names:
+                        sens[nm] += max(float(np.abs(p_[nm] - rk[nm]).max()) for p_ in pk) / len(kpts)
+                        absscale[nm] += float(np.abs(rk[nm]).max()) / len(kpts)
+                ref = run(s3)
+                for tag, s in systems.items():
+                    got = run(s)
+                    for nm in names:
+                        floor = 1e-10 * max(float(np.abs(ref[nm]).max()), absscale[nm]) + 1e-300
+                        tol = SENS_SAFETY * sens[nm] + floor
+                        d = float(np.abs(got[nm] - ref[nm]).max()) if got[nm].shape == ref[nm].shape else np.inf
+                        worst = max(worst, d / (sens[nm] + floor))
+                        ctx.case(signature=("calc", it, nm, tag), nontrivial=True)
+                        ctx.count(f"oracle.calc.{nm}")
+                        if d > tol:
+                            ctx.fail(f"calculator {nm}: {tag} derivatives give a result differing by {d:.3e} from the "
+                                     f"analytic-derivative run; allowed {tol:.1e} = {SENS_SAFETY:g} x response {sens[nm]:.1e} to a "
+                                     f"derivative error of the proved size (max |result| {np.abs(ref[nm]).max():.3e})",
+                                     dict(case, Efermi=Ef, NK=NK))
             for nm in rs.choice(tabs, 3, replace=False):
                 k = rs.uniform(-0.3, 0.3, 3)
-                with quiet():
-                    a = wb.evaluate_k(s0, k=k, calculators={nm: getattr(calc.tabulate, nm)()}).data
-                    b = wb.evaluate_k(s3, k=k, calculators={nm: getattr(calc.tabulate, nm)()}).data
                 Ek = np.linalg.eigvalsh(ham(s0.k_ham_from_red(k)))
-                g = float(np.min(np.diff(Ek)))
-                d = float(np.abs(a - b).max())
-                tol = 1e-4 * (float(np.abs(b).max()) + 1e-6) / min(1.0, g) ** 3
-                ctx.case(signature=("tab", it, nm), nontrivial=True)
-                ctx.count(f"oracle.tab.{nm}")
-                if a.shape != b.shape or d > tol:
-                    ctx.fail(f"tabulator {nm}: numeric-derivative system differs by {d:.3e} (> {tol:.1e}) from the analytic one",
-                             dict(case, k=k))
+                if float(np.min(np.diff(Ek))) < 0.3:
+                    ctx.count("oracle.tab.small-gap(skipped)")
+                    continue
+
+                def tab(s):
+                    with quiet():
+                        return wb.evaluate_k(s, k=k, calculators={nm: getattr(calc.tabulate, nm)()}).data
+                b = tab(s3)
+                pert = [tab(sp) for sp in perturbed]
+                sens = max(float(np.abs(pr - b).max()) for pr in pert)
+                floor = 1e-10 * max(float(np.abs(b).max()), max(float(np.abs(pr).max()) for pr in pert)) + 1e-300
+                tol = SENS_SAFETY * sens + floor
+                for tag, s in systems.items():
+                    a = tab(s)
+                    d = float(np.abs(a - b).max()) if a.shape == b.shape else np.inf
+                    worst = max(worst, d / (sens + floor))
+                    ctx.case(signature=("tab", it, nm, tag), nontrivial=True)
+                    ctx.count(f"oracle.tab.{nm}")
+                    if d > tol:
+                        ctx.fail(f"tabulator {nm}: {tag} derivatives differ by {d:.3e} from the analytic ones; allowed {tol:.1e} = "
+                                 f"{SENS_SAFETY:g} x response {sens:.1e} to a derivative error of the proved size", dict(case, k=k))
+    ctx.note(f"oracle: largest |numeric - analytic| / (response to the proved derivative error) over calculators and "
+             f"tabulators = {worst:.3g} (allowed {SENS_SAFETY:g})")
 
 
 def replay(ctx, case):
